@@ -661,6 +661,48 @@ func checkC04(p *Prog, r *Report) {
 			r.OK("check tick: previous state recorded on every exit", p.Pos(tick.Body.Pos()), "deferred assignment of lastConnectionState")
 		}
 	}
+
+	// ---- R4.6 what counts as "not silent" ------------------------------------------------------------
+	r.Rule("R4.6", "Every datagram accepted from a known remote candidate refreshes that candidate's last-received time, application data as well as STUN: the cached-source fast path marks the cached candidate seen on every path on which it accepts, and the slow path marks the candidate it found; so a selected remote that keeps sending data is never declared silent.", 2)
+	isSeen := func(n ast.Node) bool {
+		return p.nodeHasCall(n, func(c *ast.CallExpr) bool {
+			cn := p.CalleeName(c)
+			return (cn == "ice.Candidate.seen" || cn == "ice.candidateBase.seen") && len(c.Args) == 1 && p.constName(c.Args[0]) == "false"
+		})
+	}
+	if f := p.Fn("candidateBase.validateSTUNTrafficCache"); r.Anchor("candidateBase.validateSTUNTrafficCache", f != nil) {
+		g := p.CFG(f)
+		ok, n := true, 0
+		for _, b := range g.Blocks {
+			for _, nd := range b.Nodes {
+				rs, isR := nd.(*ast.ReturnStmt)
+				if !isR || len(rs.Results) != 1 {
+					continue
+				}
+				if v, _ := p.ConstVal(rs.Results[0]); v != "true" {
+					continue
+				}
+				n++
+				if !p.MustPrecede(f, rs, isSeen) {
+					ok = false
+				}
+			}
+		}
+		r.Check(ok && n > 0, "cached source: accepted data refreshes the remote's last-received time", p.Pos(f.Body.Pos()), "seen(false) before every 'return true'", "the fast path accepts a datagram without marking the remote seen: after the first packet from an address, application data no longer counts as liveness and a talking peer is reported Disconnected / Failed")
+	}
+	if f := p.Fn("Agent.validateNonSTUNTraffic$1"); r.Anchor("Agent.validateNonSTUNTraffic$1", f != nil) {
+		g := p.CFG(f)
+		// every path on which a remote candidate was found marks it seen
+		_, escapes := g.PathAvoiding(Loc{g.Entry, 0}, isSeen, func(b *Block) bool { return b == g.Exit }, func(e *Edge) bool {
+			for _, ft := range p.FactsOfCond(e.Cond, e.Val) {
+				if ft.Op == "==" && ft.Val && p.isNilExpr(ft.Y) {
+					return false // nothing found: nothing to refresh
+				}
+			}
+			return true
+		})
+		r.Check(!escapes, "first datagram from a source: the matched remote is marked seen", p.Pos(f.Body.Pos()), "seen(false) whenever a remote candidate was found", "the slow path validates a source without refreshing the remote's last-received time")
+	}
 }
 
 func hasPrefixKey(m map[string]string, name string) bool {
